@@ -20,7 +20,7 @@ func runFraming(o opts, out *Output) {
 	sb.WriteString("Definition framing_cases : list (list (list (N * N)) * list (N * list (N * N))) := [\n")
 	ncase := 0
 	for c := 0; c < o.n; c++ {
-		g := &OGen{r: r.Fork(), Wide: r.Chance(40)}
+		g := &OGen{r: r.Fork(), Wide: r.Chance(40), Mono: monoPick(r)}
 		var options []cfgpkg.Option
 		optName := "default"
 		switch r.Intn(6) {
